@@ -199,6 +199,57 @@ func c06(p *an.Prog, r *an.R, tier string) {
 				}
 				continue
 			}
+			// the enumeration may live in a helper that is handed `text`: parseYesNo(name, text, ..)
+			ast.Inspect(st, func(m ast.Node) bool {
+				c, ok := m.(*ast.CallExpr)
+				if !ok {
+					return true
+				}
+				h := an.Callee(info, c)
+				if h == nil || h.Pkg() == nil || !an.InModule(h.Pkg()) {
+					return true
+				}
+				hd := p.Decl(h)
+				if hd == nil || hd.Decl.Body == nil || hd.Pkg.TypesInfo != info {
+					return true
+				}
+				for i, a := range c.Args {
+					id, ok := ast.Unparen(a).(*ast.Ident)
+					if !ok || id.Name != "text" {
+						continue
+					}
+					pv := an.Param(info, hd.Decl, i)
+					if pv == nil {
+						continue
+					}
+					ast.Inspect(hd.Decl.Body, func(k ast.Node) bool {
+						switch x := k.(type) {
+						case *ast.SwitchStmt:
+							if x.Tag != nil && isIdentOf(info, x.Tag, pv) {
+								for _, cc2 := range x.Body.List {
+									for _, e := range cc2.(*ast.CaseClause).List {
+										if sv, ok := an.StringConst(info, e); ok {
+											add(sv)
+										}
+									}
+								}
+							}
+						case *ast.BinaryExpr:
+							if x.Op == token.EQL || x.Op == token.NEQ {
+								for _, pr := range [][2]ast.Expr{{x.X, x.Y}, {x.Y, x.X}} {
+									if isIdentOf(info, pr[0], pv) {
+										if sv, ok := an.StringConst(info, pr[1]); ok {
+											add(sv)
+										}
+									}
+								}
+							}
+						}
+						return true
+					})
+				}
+				return true
+			})
 			// the same enumeration written as comparisons: `if text != "yes" && text != "no" {error}`,
 			// `if text == "yes" {..} else if text == "no" {..} else {error}`
 			if is, ok := st.(*ast.IfStmt); ok {
